@@ -93,7 +93,12 @@ func MatchServeMuxPattern(mux *http.ServeMux, dir LookupHTTPHandler) (handler ht
 	if method == "" {
 		method = "OPTIONS"
 	}
-	return mux.Handler(&http.Request{Method: method, URL: dir.LookupHTTPHandlerURL()})
+	handler, pattern = mux.Handler(&http.Request{Method: method, URL: dir.LookupHTTPHandlerURL()})
+	if pattern == "" {
+		// no registered pattern matched: the mux returned its internal not-found handler.
+		return nil, ""
+	}
+	return handler, pattern
 }
 
 // Validate validates the directive.
